@@ -101,13 +101,16 @@ func H_C05_reorder() {
 // H_C05_outgroup: RerootOutGroup(remove, strict, S) for every tip subset.
 func H_C05_outgroup() {
 	n := sxParam("n", 4)
-	t := genTree(n, 2, false)
+	t := genTree(n, 2, sxParam("binary", 0) == 1)
 	decorate(t, lenAll, supAny)
 	full := uint64(1)<<uint(n) - 1
 	sub := uint64(sxChoose("outgroup", 1<<uint(n)))
-	remove := sxChoose("remove", 2) == 1
-	strict := sxChoose("strict", 2) == 1
-	absent := sxChoose("absentname", 2) == 1
+	remove, strict, absent := false, true, false
+	if sxParam("strictonly", 0) == 0 {
+		remove = sxChoose("remove", 2) == 1
+		strict = sxChoose("strict", 2) == 1
+		absent = sxChoose("absentname", 2) == 1
+	}
 	var names []string
 	if absent {
 		names = append(names, "zz_not_in_tree")
